@@ -1,7 +1,7 @@
 """C06 — a group topic has exactly one owner at all times."""
 from props import topic_common as tc
 
-KINDS = ["NewGrp", "Sub", "Leave", "SetSelf", "SetOther", "DelSub", "DelTopic", "SetDesc", "Unload", "Reload"]
+KINDS = ["NewGrp", "Sub", "Leave", "SetSelf", "SetOther", "DelSub", "DelTopic", "SetDesc", "Unload", "Reload", "Conn"]
 BASE = ["NewGrp", "Sub", "Leave", "SetSelf", "SetOther", "DelSub", "Unload"]
 
 
